@@ -115,6 +115,8 @@ class Report:
 
     # ---- finish -------------------------------------------------------
     def finish(self):
+        kf = [o for o in self.obligations if o["status"] == "known-finding"]
+        self.obligations = [o for o in self.obligations if o["status"] != "known-finding"]
         nob = len(self.obligations)
         ndis = sum(1 for o in self.obligations if o["status"] == "discharged")
         by_backend = {}
@@ -143,6 +145,7 @@ class Report:
             "undecided": self.undecided,
             "bounded_standins": self.standins,
             "known_findings_reported": self.known_printed,
+            "known_finding_obligations_not_counted": [o["name"] for o in kf],
             "samples": (self.samples + [{"standin": s["name"], "cases": s["samples"]} for s in self.standins])[:10]
             or [{"note": "no sample recorded"}],
             "explanation": self.explanation,
